@@ -252,8 +252,31 @@ static Verdict run_c12(const Case &c)
     v.classes.push_back(warm <= 2 ? "after_warmup_on_intact_file" : "after_a_refused_operation");
   ChildResult rv = run_in_child([&]() { warmup(); return wapi::verify(file, key, pc, true).ser(); });
   ChildResult rd = run_in_child([&]() { warmup(); return wapi::decrypt(file, key, pc).ser(); });
+  if (rv.status == CH_OK && rd.status == CH_TIMEOUT && wapi::has_scheduler())
+  {
+    // verification has returned, decryption gave no result within 60 s. Under the deterministic scheduler such a case
+    // takes milliseconds; a loop that reaches neither a schedule point nor a stream callback is invisible to the step
+    // and callback bounds. Once more with three times the time: two timeouts in a row are an endless loop - and if
+    // verification accepted the file, "verification succeeds exactly when decryption succeeds" is broken.
+    ChildResult rd2 = run_in_child([&]() { warmup(); return wapi::decrypt(file, key, pc).ser(); }, 180);
+    if (rd2.status == CH_TIMEOUT)
+    {
+      wapi::OpOut ov0 = wapi::OpOut::de(rv.payload);
+      if (ov0.ret)
+      {
+        Verdict f = bad("verification succeeds but decryption of the same file never returns (no result within 60 s and again within 180 s under the deterministic scheduler; a case of this size takes milliseconds)");
+        f.slow = true;
+        return f;
+      }
+      v.classes.push_back("decrypt_hangs_verify_rejects_see_C04");
+      v.nontrivial = false;
+      return v;
+    }
+    rd = rd2;
+  }
   if (rv.status == CH_TIMEOUT || rd.status == CH_TIMEOUT)
   {
+    v.classes.push_back("watchdog_inconclusive");
     v.nontrivial = false;
     return v;
   }
